@@ -286,6 +286,11 @@ func (s *Stage) Receive(file *sts.Partial, reader io.Reader) (err error) {
 	part := file.Parts[0]
 	path := filepath.Join(s.rootDir, file.Name)
 
+	// The part may belong to a retransmission of a version that was put away
+	// long ago and is known from the receive log only: have the log read back
+	// that far before the duplicate check below (as Received() does)
+	s.buildCache(s.cacheStartFor(file.Name, file.Time.Time))
+
 	// Read the part and write it to the right place in the staged "partial"
 	fh, err := os.OpenFile(path+partExt, os.O_WRONLY, 0600)
 	if err != nil {
@@ -374,20 +379,26 @@ func (s *Stage) Received(parts []sts.Binned) (n int) {
 	return
 }
 
-func (s *Stage) partReceived(part sts.Binned) bool {
-	s.logDebug("Checking for received part:", part.GetName())
-	when := part.GetFileTime()
+// cacheStartFor returns the time from which the receive log has to be known in
+// order to judge a file with the given (sender-side) time: never in the future
+// and at most a month back
+func (s *Stage) cacheStartFor(name string, when time.Time) time.Time {
 	now := time.Now()
 	if when.After(now) {
-		s.logInfo("Clamping future part time for cache build:", part.GetName(), when, now)
+		s.logInfo("Clamping future part time for cache build:", name, when, now)
 		when = now
 	}
-	monthAgo := time.Now().Add(-1 * time.Hour * 24 * 30)
+	monthAgo := now.Add(-1 * time.Hour * 24 * 30)
 	if when.Before(monthAgo) {
 		// Let's put a sensible cap in place
 		when = monthAgo
 	}
-	s.buildCache(when)
+	return when
+}
+
+func (s *Stage) partReceived(part sts.Binned) bool {
+	s.logDebug("Checking for received part:", part.GetName())
+	s.buildCache(s.cacheStartFor(part.GetName(), part.GetFileTime()))
 	beg, end := part.GetSlice()
 	path := filepath.Join(s.rootDir, part.GetName())
 	lock := s.getPathLock(path)
